@@ -520,7 +520,9 @@ pub fn gen(rng: &mut Rng, tier: Tier, out: &mut Vec<String>) {
     for i in 0..(if q { 1500 } else { 60_000 }) {
         let f = log_uniform(rng, 0.1, 10.0);
         let a = log_uniform(rng, 0.25, 4.0);
-        let near = log_uniform(rng, 0.01, 10.0);
+        // a quarter of the frusta live at an extreme scale (near from 1e-12 to 1e8): the projection is scale
+        // invariant, an absolute epsilon in its parameter checks or formulas is not
+        let near = if i % 4 == 3 { log_uniform(rng, 1e-12, 1e8) } else { log_uniform(rng, 0.01, 10.0) };
         let far = near * (1.0 + log_uniform(rng, 0.01, 1000.0));
         let k = 4;
         let mut s = format!("persp {} {} {} {} P {}", h32(f), h32(a), h32(near), h32(far), k + 2);
